@@ -145,7 +145,7 @@ class C17(core.Check):
     nshards_quick = 16
     nshards_thorough = 64
     budget_quick = 900
-    budget_thorough = 3000
+    budget_thorough = 6000
 
     def setup(self, tier):
         self.tmp = tempfile.mkdtemp(prefix='yvm_c17_')
